@@ -1,19 +1,22 @@
-import Ivy.L3.Pump
+import Ivy.L3.PumpCache
 import Ivy.Drv.Util
-/-! T-replay driver for iv_fd_pump.c: reads the log written by /verif/harness/pump_h.c,
-feeds the `EV` records to the model and compares the `OUT`/`RET` records with its predictions. -/
+/-! T-replay driver for iv_fd_pump.c: reads the log written by /verif/harness/pump_h.c, feeds the
+`EV` records to the thread machine of `Ivy/L3/PumpCache.lean` (several live pumps + the per-thread
+buffer cache) and compares the `OUT`/`RET`/`BUF`/`DONE` records of every call and the
+`CACHED`/`ALIVE`/`ALLOCS`/`FREES` record after every operation with its predictions. -/
 namespace Ivy.Drv.Pump
 open Ivy.Pump
 
-inductive Mode | idle | inNew | inPump | inDestroy
-deriving DecidableEq
-
 structure S where
-  st : St := St.init false false
-  mode : Mode := .idle
+  thr : Thr := Thr.init none
+  slot : Nat := 0
   relay : Bool := false
+  probe : Bool := false
   evs : Array Ev := #[]
   outs : Array Out := #[]
+  contentBad : Bool := false
+  uid : Nat := 0                       -- serial number of the pump being created / last created
+  uids : List (Nat × Nat) := []        -- slot ↦ serial number of its pump
   line : Nat := 0
   calls : Nat := 0
   diverged : Nat := 0
@@ -33,12 +36,16 @@ def parseOut : List String → Option Out
   | ["setBands", a, b] => some (Out.setBands (a == "1") (b == "1"))
   | _ => none
 
+def slotSt (s : S) : Option St := (getSlot s.thr.slots s.slot).map (·.st)
+
 def parseEv (s : S) : List String → Option Ev
   | ["rd", "data", n] =>
     n.toNat?.map fun n =>
-      -- bytes are identified by their position in the source stream
-      let pos := s.st.src.length + (s.evs.foldl (fun a e => match e with | Ev.rdData bs => a + bs.length | _ => a) 0)
-      Ev.rdData ((List.range n).map (· + pos))
+      -- bytes are identified by (serial number of the pump, position in its source stream)
+      let have_ := match slotSt s with | some st => st.src.length | none => 0
+      let pos := have_ + (s.evs.foldl (fun a e => match e with | Ev.rdData bs => a + bs.length | _ => a) 0)
+      let base := ((s.uids.lookup s.slot).getD 0) * 1099511627776
+      Ev.rdData ((List.range n).map (· + pos + base))
   | ["rd", "eof"] => some Ev.rdEof
   | ["rd", "eagain"] => some Ev.rdEagain
   | ["rd", "eintr"] => some Ev.rdEintr
@@ -55,48 +62,128 @@ def evKind : Ev → String
   | .rdData _ => "rdData" | .rdEof => "rdEof" | .rdEagain => "rdEagain" | .rdEintr => "rdEintr" | .rdErr => "rdErr"
   | .fion _ => "fion" | .wrN _ => "wrN" | .wrZero => "wrZero" | .wrEagain => "wrEagain" | .wrEintr => "wrEintr" | .wrErr => "wrErr"
 
+def diverge (s : S) (msg : String) : S × List String :=
+  ({ s with diverged := s.diverged + 1 }, [s!"DIVERGE line {s.line}: {msg}"])
+
+def parseMode : String → Option (Option Bool)
+  | "-1" => some none
+  | "0" => some (some false)
+  | "1" => some (some true)
+  | _ => none
+
+/-- descriptors the model says are open: two per existing buffer while buffers are pipes -/
+def fdsAlive (t : Thr) : Nat := if t.splice == some false then 0 else 2 * (t.allocs - t.frees)
+
+/-- were the bytes this call delivered the next bytes of the pump's own source? -/
+def deliveredOwn (s s' : St) : Bool :=
+  let n := s'.sink.length - s.sink.length
+  s'.sink.drop s.sink.length == (s'.src.drop s.sink.length).take n
+
 def step (s : S) (ws : List String) : S × List String :=
   let s := { s with line := s.line + 1 }
   match ws with
-  | ["NEW", "relay", r] => ({ s with mode := .inNew, relay := r == "1", outs := #[], evs := #[] }, [])
+  | ["MODE", m] =>
+    match parseMode m with
+    | none => (s, [s!"bad-log line {s.line}"])
+    | some m =>
+      match Ivy.Pump.step s.thr (Op.setMode m) with
+      | some (t', _, _) => ({ s with thr := t' }, [])
+      | none => diverge s s!"transfer mode forced while the model has {s.thr.slots.length} live pumps and {s.thr.cache.length} cached buffers"
+  | ["PURGE"] =>
+    match Ivy.Pump.step s.thr Op.purge with
+    | some (t', _, _) => ({ s with thr := t', cov := bump s.cov "purge" }, [])
+    | none => diverge s "purge: no execution in the model"
+  | ["NEW", k, "relay", r, "probe", p] =>
+    match k.toNat? with
+    | none => (s, [s!"bad-log line {s.line}"])
+    | some k =>
+      let uid := s.uid + 1
+      ({ s with slot := k, relay := r == "1", probe := p == "1", outs := #[], evs := #[], uid := uid,
+                uids := (k, uid) :: s.uids.filter (·.1 != k) }, [])
   | ["ENDNEW", "splice", m] =>
-    let st := St.init (m == "1") s.relay
-    let ok := s.outs.toList == initOuts
-    ({ s with st := st, mode := .idle, diverged := if ok then s.diverged else s.diverged + 1 },
-     if ok then [] else [s!"DIVERGE line {s.line}: init outputs {repr s.outs.toList} predicted {repr initOuts}"])
-  | ["PUMP"] => ({ s with mode := .inPump, outs := #[], evs := #[] }, [])
+    match Ivy.Pump.step s.thr (Op.new s.slot s.relay s.probe) with
+    | some (t', outs, _) =>
+      let probed := s.thr.splice.isNone
+      let ok := s.outs.toList == outs && (m == "1") == (t'.splice == some true)
+      let s := { s with thr := t', cov := if probed then bump s.cov s!"probe-{s.probe}" else s.cov }
+      if ok then (s, [])
+      else diverge s s!"init of slot {s.slot}: outputs {repr s.outs.toList} splice={m}; model outputs {repr outs} splice={repr t'.splice}"
+    | none => diverge s s!"init of slot {s.slot}: the model already has a live pump there"
+  | ["PUMP", k] =>
+    match k.toNat? with
+    | none => (s, [s!"bad-log line {s.line}"])
+    | some k => ({ s with slot := k, outs := #[], evs := #[], contentBad := false }, [])
   | "OUT" :: rest =>
     match parseOut rest with
     | some o => ({ s with outs := s.outs.push o }, [])
-    | none => ({ s with diverged := s.diverged + 1 }, [s!"DIVERGE line {s.line}: unparsable/unexpected output record {rest}"])
+    | none => diverge s s!"unparsable/unexpected output record {rest}"
   | "EV" :: rest =>
     match parseEv s rest with
     | some e => ({ s with evs := s.evs.push e, cov := bump s.cov (evKind e) }, [])
     | none => (s, [s!"bad-log line {s.line}"])
-  | ["CONTENT", _] => (s, [])
+  | "CONTENT" :: c :: _ => ({ s with contentBad := s.contentBad || c != "ok" }, [])
+  | "HANG" :: _ => diverge s "the implementation issued a blocking splice on an empty pipe"
+  | "BADFD" :: rest => diverge s s!"the implementation used a descriptor it does not own: {rest}"
   | ["RET", r, "BUF", b, "DONE", d] =>
     match r.toInt? with
     | none => (s, [s!"bad-log line {s.line}"])
     | some r =>
-      let s := { s with calls := s.calls + 1, mode := .idle }
-      match pump s.st s.evs.toList with
-      | some (st', outs, r', rest) =>
-        let okOuts := outs == s.outs.toList
-        let ok := okOuts && r == r' && rest.isEmpty && (b == "1") == st'.hasBuf && (d == "1") == (st'.sawFin == 2)
-        let cov := bump s.cov s!"ret{r'}-fin{st'.sawFin}-full{st'.full}-splice{st'.splice}"
-        if ok then ({ s with st := st', cov := cov }, [])
-        else ({ s with st := st', cov := cov, diverged := s.diverged + 1 },
-              [s!"DIVERGE line {s.line}: pump call #{s.calls}: implementation outs={repr s.outs.toList} ret={r} buf={b} done={d}; model outs={repr outs} ret={r'} buf={st'.hasBuf} fin={st'.sawFin} unconsumed={rest.length}"])
+      let s := { s with calls := s.calls + 1 }
+      let before := slotSt s
+      match Ivy.Pump.step s.thr (Op.pump s.slot s.evs.toList) with
+      | some (t', outs, r') =>
+        let r' := r'.getD 0
+        match before, (getSlot t'.slots s.slot).map (·.st) with
+        | some st, some st' =>
+          let okOuts := outs == s.outs.toList
+          let own := deliveredOwn st st'
+          let ok := okOuts && r == r' && (b == "1") == st'.hasBuf && (d == "1") == (st'.sawFin == 2)
+                    && own == !s.contentBad && !t'.fault
+          let cov := bump s.cov s!"ret{r'}-fin{st'.sawFin}-full{st'.full}-splice{st'.splice}"
+          let cov := if acquires st then bump cov (if s.thr.cache.isEmpty then "acquire-fresh" else "acquire-cached") else cov
+          let cov := if (st.hasBuf || acquires st) && !st'.hasBuf then
+              bump cov (if t'.frees == s.thr.frees then "release-cached"
+                        else if t'.spl && st'.bytes != 0 then "release-closed-nonempty-pipe" else "release-freed-cache-full")
+            else cov
+          let cov := if r' == -1 && st'.bytes != 0 then bump cov "error-with-data-buffered" else cov
+          let s := { s with thr := t', cov := cov }
+          if ok then (s, [])
+          else diverge s s!"pump call #{s.calls} slot {s.slot}: implementation outs={repr s.outs.toList} ret={r} buf={b} done={d} content-bad={s.contentBad}; model outs={repr outs} ret={r'} buf={st'.hasBuf} fin={st'.sawFin} delivered-own={own} null-buffer={t'.fault}"
+        | _, _ => diverge { s with thr := t' } s!"pump call #{s.calls} slot {s.slot}: no such pump in the model"
       | none =>
-        ({ s with diverged := s.diverged + 1 },
-         [s!"DIVERGE line {s.line}: pump call #{s.calls}: the model has no execution for events {repr s.evs.toList} from state bytes={s.st.bytes} full={s.st.full} fin={s.st.sawFin} (implementation made different calls)"])
-  | ["DESTROY"] => ({ s with mode := .inDestroy, outs := #[] }, [])
+        match before with
+        | some st =>
+          diverge s s!"pump call #{s.calls} slot {s.slot}: the model has no execution for events {repr s.evs.toList} from state bytes={st.bytes} full={st.full} fin={st.sawFin} (implementation made different calls)"
+        | none => diverge s s!"pump call #{s.calls} slot {s.slot}: no such pump in the model"
+  | ["DESTROY", k] =>
+    match k.toNat? with
+    | none => (s, [s!"bad-log line {s.line}"])
+    | some k => ({ s with slot := k, outs := #[] }, [])
   | ["ENDDESTROY", "BUF", b] =>
-    let (st', outs) := destroy s.st
-    let ok := outs == s.outs.toList && b == "0"
-    ({ s with st := st', mode := .idle, diverged := if ok then s.diverged else s.diverged + 1 },
-     if ok then [] else [s!"DIVERGE line {s.line}: destroy outputs {repr s.outs.toList} predicted {repr outs}"])
-  | ["CACHED", _] => (s, [])
+    match Ivy.Pump.step s.thr (Op.destroy s.slot) with
+    | some (t', outs, _) =>
+      let ok := outs == s.outs.toList && b == "0"
+      let s := { s with thr := t', cov := bump s.cov "destroy" }
+      if ok then (s, [])
+      else diverge s s!"destroy of slot {s.slot}: outputs {repr s.outs.toList} buf={b}, model {repr outs}"
+    | none => diverge s s!"destroy of slot {s.slot}: no such pump in the model"
+  | ["CACHED", n, "ALIVE", a, f, "ALLOCS", al, "FREES", fr, "DIRTY", d] =>
+    let t := s.thr
+    let ok := n.toNat? == some t.cache.length && a.toNat? == some (t.allocs - t.frees) && f.toNat? == some (fdsAlive t)
+              && al.toNat? == some t.allocs && fr.toNat? == some t.frees
+              && d.toNat? == some (t.cache.filter (· != [])).length
+    let s := { s with cov := bump s.cov s!"cache-depth-{t.cache.length}" }
+    if ok then (s, [])
+    else diverge s s!"buffer cache: implementation cached={n} alive={a} fds={f} allocs={al} frees={fr} non-empty-cached={d}; model cached={t.cache.length} alive={t.allocs - t.frees} fds={fdsAlive t} allocs={t.allocs} frees={t.frees}"
+  | ["FINAL", "ALIVE", a, f] =>
+    -- iv_deinit ran the thread-deinit hook (buf_purge) after the harness destroyed every pump
+    match Ivy.Pump.step s.thr Op.purge with
+    | some (t', _, _) =>
+      let ok := a.toNat? == some (t'.allocs - t'.frees) && f.toNat? == some (fdsAlive t') && t'.slots.isEmpty
+      let s := { s with thr := t' }
+      if ok then (s, [])
+      else diverge s s!"after thread deinit: implementation alive={a} fds={f}; model alive={t'.allocs - t'.frees} fds={fdsAlive t'} live-pumps={t'.slots.length}"
+    | none => diverge s "final purge: no execution in the model"
   | ["SKIP"] => (s, [])
   | _ => (s, [s!"bad-log line {s.line}: {ws}"])
 
